@@ -999,7 +999,9 @@ func (c *fnCtx) binop(st *State, op token.Token, x, y SymVal, t types.Type, pos 
 				r = app("=", app("slen", o), "0")
 			} else {
 				r = sEq(x.S, y.S)
-				c.assume(st, sImp(r, app("=", app("slen", x.S), app("slen", y.S))))
+				if !strings.Contains(x.S, "!q") && !strings.Contains(y.S, "!q") && !strings.Contains(x.S, "sk!") && !strings.Contains(y.S, "sk!") {
+					c.assume(st, sImp(r, app("=", app("slen", x.S), app("slen", y.S))))
+				}
 			}
 			if op == token.NEQ {
 				r = sNot(r)
